@@ -60,6 +60,7 @@ package commonmark
 
 //@ func lineCount
 //@   ensures[count] result == LE(text, 0, len(text))
+//@   ensures[range] 0 <= result && result <= len(text)
 //@   loop 0: invariant[count] count == LE(text, 0, i)
 //@   loop 0: invariant[nonneg] 0 <= count && count <= i
 //@   serves C01, C04
